@@ -429,6 +429,7 @@ func checkC04(c *Ctx) {
 	handlers := c.webHandlers()
 	c.R.Rule("C14/NAME", "mailbox-name arguments of Manager methods in pkg/rest and pkg/webui flow from the result of Manager.MailboxForAddress")
 	c.c04Handlers(handlers, mgr, mbfaObj)
+	c.c04URLVars(handlers, mbfaObj)
 
 	// D2 / D3 over the naming functions
 	an := &strAn{c: c}
@@ -538,4 +539,83 @@ func (c *Ctx) c04Handlers(handlers []*ssa.Function, mgr *types.Named, mbfa *type
 		})
 	}
 	r.Floor("C04/ONE-AUTHORITY", "mailbox arguments in handlers", n, 12)
+}
+
+// c04URLVars: the string handed to MailboxForAddress is the router's path variable,
+// untouched: it is a lookup in web.Context.Vars; Context.Vars is written only in NewContext
+// with the result of mux.Vars(req); nothing in the module updates that map.
+func (c *Ctx) c04URLVars(handlers []*ssa.Function, mbfa *types.Func) {
+	r, p := c.R, c.P
+	fVars := p.Field("pkg/server/web", "Context", "Vars")
+	newCtx := p.Func("pkg/server/web", "NewContext")
+	if fVars == nil || newCtx == nil {
+		return
+	}
+	n := 0
+	for _, H := range handlers {
+		H := H
+		eng.EachCallDeep(H, func(fn *ssa.Function, ci ssa.CallInstruction) {
+			cc := ci.Common()
+			if !eng.IsCallTo(cc, mbfa) || len(cc.Args) == 0 {
+				return
+			}
+			n++
+			arg := cc.Args[0]
+			okArg := false
+			if lk, ok := arg.(*ssa.Lookup); ok && eng.SameField(eng.LoadedField(lk.X), fVars) {
+				if _, isC := eng.ConstString(lk.Index); isC {
+					okArg = true
+				}
+			}
+			cons := "url-var@" + shortFn(H)
+			if okArg {
+				r.Ok("C04/ONE-AUTHORITY", cons, p.InstrPos(ci), "MailboxForAddress receives ctx.Vars[const] unchanged")
+			} else {
+				r.Bad("C04/ONE-AUTHORITY", cons, p.InstrPos(ci), "the value handed to MailboxForAddress is not the router's path variable (ctx.Vars[...]) unchanged: a read interface transforms the address before naming, so it can name a different mailbox than delivery did")
+			}
+		})
+	}
+	r.Floor("C04/ONE-AUTHORITY", "MailboxForAddress calls in handlers", n, 10)
+	// writers of Context.Vars
+	var probs []string
+	nW := 0
+	for _, fn := range p.Funcs {
+		if p.IsTestSupport(fn) {
+			continue
+		}
+		fn := fn
+		eng.EachInstr(fn, func(in ssa.Instruction) {
+			switch x := in.(type) {
+			case *ssa.Store:
+				fa, ok := x.Addr.(*ssa.FieldAddr)
+				if !ok || !eng.SameField(eng.FieldOfAddr(fa), fVars) {
+					return
+				}
+				nW++
+				call, isCall := x.Val.(*ssa.Call)
+				if fn != newCtx || !isCall || eng.CalleeName(call.Common()) != "github.com/gorilla/mux.Vars" {
+					probs = append(probs, "Context.Vars is assigned at "+p.InstrPos(in)+" with something other than mux.Vars(req)")
+					return
+				}
+				// the map returned by mux.Vars must not be updated
+				for _, ref := range *call.Referrers() {
+					if mu, ok := ref.(*ssa.MapUpdate); ok && mu.Map == ssa.Value(call) {
+						probs = append(probs, "the router's variable map is modified at "+p.InstrPos(mu)+" before handlers see it (e.g. decoded a second time): a mailbox name containing %XX, '+' or upper-case escapes is looked up under a different name than it was delivered to")
+					}
+				}
+			case *ssa.MapUpdate:
+				if eng.SameField(eng.LoadedField(x.Map), fVars) {
+					probs = append(probs, "Context.Vars is modified at "+p.InstrPos(in))
+				}
+			}
+		})
+	}
+	if nW == 0 {
+		probs = append(probs, "no writer of Context.Vars found")
+	}
+	if len(probs) > 0 {
+		r.Bad("C04/ONE-AUTHORITY", "web.Context.Vars", p.Pos(newCtx.Pos()), "%s", strings.Join(probs, "; "))
+	} else {
+		r.Ok("C04/ONE-AUTHORITY", "web.Context.Vars", p.Pos(newCtx.Pos()), "Context.Vars = mux.Vars(req), never modified")
+	}
 }
